@@ -22,7 +22,7 @@ func init() {
 			"Added after blind round 4: Append routes to the single-record or the fragment writer by exactly the payload size writeRecord builds; the variable-length slices of parseEntryData are bounds-checked (shared with C10). " +
 			"Added after blind round 5: ReuseWAL reopens the last file of the sorted list only; the reader puts no constant bound on decoded key/value lengths.",
 		NotDecided: "equality of replayed and appended sequences for all inputs (the layout agreement plus CRC is its structural part); behaviour with non-monotone sequence numbers.",
-		Rules:      []func(*Ctx, *Reporter){ruleWalHeaderCodec, ruleWalPayloadCodec, ruleWalFragmentation, ruleWalLengthFits, ruleWalCRC, ruleWalFileOrder, ruleWalNoBufferDrop, ruleWalRouteBySize, ruleNoFabrication, ruleReuseNewestOnly, ruleWalReaderNoConstantLimits},
+		Rules:      []func(*Ctx, *Reporter){ruleWalHeaderCodec, ruleWalPayloadCodec, ruleWalFragmentation, ruleWalLengthFits, ruleWalCRC, ruleWalFileOrder, ruleWalNoBufferDrop, ruleWalRouteBySize, ruleNoFabrication, ruleReuseNewestOnly, ruleWalReaderNoConstantLimits, ruleExplicitSeqBelowCounter},
 	})
 }
 
@@ -66,6 +66,13 @@ func ruleWalHeaderCodec(c *Ctx, r *Reporter) {
 		return buf
 	}
 	eb, db := headerBuf(enc), headerBuf(dec)
+	if eb == nil {
+		// the header construction may live in a helper of the same package called by writeRawRecord
+		if h, _ := walHeaderHelper(enc, func(f *ssa.Function) bool { return headerBuf(f) != nil }); h != nil {
+			enc = h
+			eb = headerBuf(h)
+		}
+	}
 	if eb == nil || db == nil {
 		r.Bad("wal.header", c.FnPos(enc), "writer and reader do not both use a header buffer of HeaderSize bytes")
 		return
@@ -348,18 +355,22 @@ func ruleWalLengthFits(c *Ctx, r *Reporter) {
 	r.Check(maxV <= 65535, "wal.MaxRecordSize", c.Pos(maxRec.Pos()), fmt.Sprintf("MaxRecordSize = %d fits the 2-byte length field", maxV), fmt.Sprintf("MaxRecordSize = %d does not fit the 2-byte length field", maxV))
 	// the narrowing uint16(len(data)) is dominated by the len(data) <= MaxRecordSize edge
 	ok := false
-	AllInstrs(fn, false, func(_ *ssa.Function, ins ssa.Instruction) {
+	isNarrow := func(ins ssa.Instruction) *ssa.Convert {
 		cv, isC := ins.(*ssa.Convert)
 		if !isC || cv.Type().String() != "uint16" {
-			return
+			return nil
 		}
+		return cv
+	}
+	// lenArg: the slice whose length is narrowed, and the block the bound must hold in (in writeRawRecord's terms)
+	check := func(lenOf ssa.Value, at *ssa.BasicBlock) {
 		within := func(cond ssa.Value) (bool, bool) {
 			bo, isB := cond.(*ssa.BinOp)
 			if !isB {
 				return false, false
 			}
 			k, isK := constInt(bo.Y)
-			if !isK || k > 65535 || !sameLenOf(bo.X, cv.X) {
+			if !isK || k > 65535 || lenArgOf(bo.X) == nil || lenArgOf(bo.X) != lenOf {
 				return false, false
 			}
 			switch bo.Op {
@@ -370,11 +381,76 @@ func ruleWalLengthFits(c *Ctx, r *Reporter) {
 			}
 			return false, false
 		}
-		if GuardedBy(ins.Block(), within) {
+		if GuardedBy(at, within) {
 			ok = true
 		}
+	}
+	AllInstrs(fn, false, func(_ *ssa.Function, ins ssa.Instruction) {
+		if cv := isNarrow(ins); cv != nil && lenArgOf(cv.X) != nil {
+			check(lenArgOf(cv.X), ins.Block())
+		}
 	})
+	if h, site := walHeaderHelper(fn, func(f *ssa.Function) bool {
+		found := false
+		AllInstrs(f, false, func(_ *ssa.Function, ins ssa.Instruction) {
+			if isNarrow(ins) != nil {
+				found = true
+			}
+		})
+		return found
+	}); !ok && h != nil {
+		// the narrowing lives in a helper: the bound must dominate the call, on the argument whose length is narrowed
+		AllInstrs(h, false, func(_ *ssa.Function, ins ssa.Instruction) {
+			cv := isNarrow(ins)
+			if cv == nil {
+				return
+			}
+			if p, isP := lenArgOf(cv.X).(*ssa.Parameter); isP {
+				for i, hp := range h.Params {
+					if hp == p && i < len(site.Call.Args) {
+						check(site.Call.Args[i], site.Block())
+					}
+				}
+			}
+		})
+	}
 	r.Check(ok, "wal.WAL.writeRawRecord:narrowing", c.FnPos(fn), "uint16(len(data)) is dominated by len(data) <= MaxRecordSize", "the record length is narrowed to 16 bits without a dominating bound check: a longer record would be written with a truncated length")
+}
+
+// lenArgOf: v is len(x): returns x.
+func lenArgOf(v ssa.Value) ssa.Value {
+	call, ok := v.(*ssa.Call)
+	if !ok {
+		return nil
+	}
+	if b, ok := call.Call.Value.(*ssa.Builtin); ok && b.Name() == "len" {
+		return call.Call.Args[0]
+	}
+	return nil
+}
+
+// walHeaderHelper: a function of the same package called (statically, once) by fn that satisfies has — the place a
+// piece of writeRawRecord was extracted to. Returns the helper and the call site.
+func walHeaderHelper(fn *ssa.Function, has func(*ssa.Function) bool) (*ssa.Function, *ssa.Call) {
+	var h *ssa.Function
+	var site *ssa.Call
+	n := 0
+	AllInstrs(fn, false, func(_ *ssa.Function, ins ssa.Instruction) {
+		call, ok := ins.(*ssa.Call)
+		if !ok {
+			return
+		}
+		f := call.Call.StaticCallee()
+		if f == nil || f.Pkg != fn.Pkg || len(f.Blocks) == 0 || !has(f) {
+			return
+		}
+		h, site = f, call
+		n++
+	})
+	if n != 1 {
+		return nil, nil
+	}
+	return h, site
 }
 
 func sameLenOf(a, b ssa.Value) bool {
@@ -440,9 +516,37 @@ func ruleWalCRC(c *Ctx, r *Reporter) {
 			encCRC = call
 		}
 	})
+	var encSite *ssa.Call
+	if encCRC == nil {
+		if h, site := walHeaderHelper(enc, func(f *ssa.Function) bool {
+			found := false
+			AllInstrs(f, false, func(_ *ssa.Function, ins ssa.Instruction) {
+				if call, ok := ins.(*ssa.Call); ok && staticName(call) == "hash/crc32.ChecksumIEEE" {
+					found = true
+				}
+			})
+			return found
+		}); h != nil {
+			AllInstrs(h, false, func(_ *ssa.Function, ins ssa.Instruction) {
+				if call, ok := ins.(*ssa.Call); ok && staticName(call) == "hash/crc32.ChecksumIEEE" {
+					encCRC = call
+				}
+			})
+			encSite = site
+		}
+	}
 	okSame := encCRC != nil
 	if okSame {
 		_, isParam := encCRC.Call.Args[0].(*ssa.Parameter)
+		if isParam && encSite != nil {
+			// the helper's parameter must be bound to writeRawRecord's own payload parameter
+			isParam = false
+			for i, hp := range encCRC.Parent().Params {
+				if ssa.Value(hp) == encCRC.Call.Args[0] && i < len(encSite.Call.Args) {
+					_, isParam = encSite.Call.Args[i].(*ssa.Parameter)
+				}
+			}
+		}
 		_, isMk := crcCall.Call.Args[0].(*ssa.MakeSlice)
 		okSame = isParam && isMk
 	}
